@@ -68,7 +68,12 @@ fn main() {
     };
     harness::sched::install_quiet_panic_hook();
     let _ = harness::cond::tie_policy();
+    // shuttle installs (once per process) a panic hook that prints two lines for every panic
+    // in the process; the first simulated execution above has triggered that, so our quiet hook
+    // can now replace it for good (schedules are persisted by the harness, not by shuttle)
+    harness::sched::install_quiet_panic_hook();
     let code = match id.as_str() {
+        "C17" => run(&props::cli17::CliRejects, tier, replay, hashes),
         "C16" => run(&props::cli16::CliOptions, tier, replay, hashes),
         "C15" => run(&props::cli15::CliFaithful, tier, replay, hashes),
         "C10" => run(&props::sampling::Sampling, tier, replay, hashes),
